@@ -811,17 +811,65 @@ Definition bout_eqb (a b : bout) : bool :=
   | _, _ => false
   end.
 
+(* The executor layer over a plan (real OperatorController: AddOperator, then Dispatch on every heartbeat; commands are
+   applied or lost, and leadership may move between heartbeats without any change of the epoch).  One observation per call:
+   the region the call saw, the commands it put on the wire, whether the operator is in the running set afterwards. *)
+Record xobs := XObs { x_hb : bool; x_region : region; x_sent : list cmd; x_running : bool }.
+
+Fixpoint skip_finished (r : region) (l : list step) : list step :=
+  match l with
+  | s :: t => if is_finish r s then skip_finished r t else l
+  | [] => []
+  end.
+
+(* what the executor does on a plan while the region changes only through the plan's own commands and leader moves:
+   Operator.Check passes over finished steps (never back); on a heartbeat the step whose turn it is must pass CheckSafety
+   on the region as reported NOW, otherwise the operator is cancelled; else its command goes out *)
+Fixpoint exec_model (rem : list step) (alive : bool) (xs : list xobs) : list (list cmd * bool) :=
+  match xs with
+  | [] => []
+  | x :: xr =>
+      if negb alive then ([], false) :: exec_model rem false xr
+      else
+        let r := x_region x in
+        match skip_finished r rem with
+        | [] => if x_hb x then ([], false) :: exec_model [] false xr else ([], true) :: exec_model [] true xr
+        | s :: t =>
+            if x_hb x && negb (safe r s) then ([], false) :: exec_model (s :: t) false xr
+            else ((match cmd_of_step r s with Some c => if leader r =? 0 then [] else [c] | None => [] end), true)
+                 :: exec_model (s :: t) true xr
+        end
+  end.
+
+Fixpoint exec_monitor (rem : list step) (xs : list xobs) : option string :=
+  match xs with
+  | [] => None
+  | x :: xr =>
+      let r := x_region x in
+      match skip_finished r rem with
+      | [] => None
+      | s :: t =>
+          let bad := x_hb x && nodup_stores (peers r) && step_ids_nonzero s && negb (spec_safe r s) in
+          if bad && negb (Nat.eqb (length (x_sent x)) 0)
+          then Some (sapp "C08:exec:command-sent-for-unsafe-step:" (step_name s))
+          else if bad && x_running x
+          then Some (sapp "C08:exec:unsafe-step-keeps-operator-running:" (step_name s))
+          else if x_running x then exec_monitor (s :: t) xr else None
+      end
+  end.
+
 Inductive ccase :=
+| CExec (r : region) (ss : list step) (xs : list xobs)                (* a plan run by the real OperatorController *)
 | CBuild (i : binput) (out : bout) (tr : list tobs)                   (* NewBuilder ... Build *)
 | CLeave (c : cluster) (r : region) (out : bout) (tr : list tobs)     (* CreateLeaveJointStateOperator *)
 | CProbe (r : region) (ss : list step) (tr : list tobs)               (* arbitrary steps on an arbitrary region: step.go only *)
 | CPend (r : region) (pend : list Z) (ss : list step) (fins : list bool). (* IsFinish of each step on r with pending peers *)
 
-Definition case_region (c : ccase) : region := match c with CBuild i _ _ => i_region i | CLeave _ r _ _ | CProbe r _ _ | CPend r _ _ _ => r end.
-Definition case_out (c : ccase) : bout := match c with CBuild _ o _ | CLeave _ _ o _ => o | CProbe _ ss _ => Built ss false false | CPend _ _ _ _ => BuildErr end.
-Definition case_trace (c : ccase) : list tobs := match c with CBuild _ _ t | CLeave _ _ _ t | CProbe _ _ t => t | CPend _ _ _ _ => [] end.
+Definition case_region (c : ccase) : region := match c with CBuild i _ _ => i_region i | CLeave _ r _ _ | CProbe r _ _ | CPend r _ _ _ | CExec r _ _ => r end.
+Definition case_out (c : ccase) : bout := match c with CBuild _ o _ | CLeave _ _ o _ => o | CProbe _ ss _ => Built ss false false | CPend _ _ _ _ | CExec _ _ _ => BuildErr end.
+Definition case_trace (c : ccase) : list tobs := match c with CBuild _ _ t | CLeave _ _ _ t | CProbe _ _ t => t | CPend _ _ _ _ | CExec _ _ _ => [] end.
 Definition model_out (c : ccase) : bout :=
-  match c with CBuild i _ _ => build i | CLeave cl r _ _ => leave_joint_op cl r | CProbe _ ss _ => Built ss false false | CPend _ _ _ _ => BuildErr end.
+  match c with CBuild i _ _ => build i | CLeave cl r _ _ => leave_joint_op cl r | CProbe _ ss _ => Built ss false false | CPend _ _ _ _ | CExec _ _ _ => BuildErr end.
 
 (* None = model and implementation agree *)
 Definition check_case (c : ccase) : option (string * bout * list (nat * option tobs * option tobs)) :=
@@ -829,6 +877,10 @@ Definition check_case (c : ccase) : option (string * bout * list (nat * option t
   | CPend r pend ss fins =>
       if list_eqb Bool.eqb (map (is_finish_p pend r) ss) fins then None
       else Some ("IsFinish with pending peers differs (model steps shown)", Built ss false false, [])
+  | CExec r ss xs =>
+      if list_eqb (fun a b => list_eqb cmd_eqb (fst a) (fst b) && Bool.eqb (snd a) (snd b))
+                  (exec_model ss true xs) (map (fun x => (x_sent x, x_running x)) xs) then None
+      else Some ("the operator controller's handling of the plan differs (plan shown)", Built ss false false, [])
   | _ =>
   if negb (bout_eqb (model_out c) (case_out c)) then Some ("plan differs (model plan shown)", model_out c, [])
   else match case_out c with
@@ -943,7 +995,7 @@ Fixpoint pend_monitor (r : region) (pend : list Z) (ss : list step) (fins : list
   end.
 
 Definition monitor (c : ccase) : option string :=
-  match c with CPend r pend ss fins => pend_monitor r pend ss fins | _ =>
+  match c with CPend r pend ss fins => pend_monitor r pend ss fins | CExec r ss xs => exec_monitor ss xs | _ =>
   match plan_monitor c with
   | Some v => Some v
   | None => match case_out c with
